@@ -16,13 +16,17 @@ theorem quiescent_iff (c : Cfg) (s : St) : quiescent c s = true ↔
 
 /-- **pipe_goroutines_terminate**: with result channels of capacity ≥ 1 and each arm closing the
     opposite end, in every reachable state where the program can make no further step and PipeData
-    has returned, both copier goroutines have exited — whichever side ended first, by EOF or by
-    error, with any data in flight. -/
+    has returned, both copier goroutines have exited — whichever side ended first, by EOF, half-close
+    or error, with any data in flight — provided no peer has stopped reading, or both connection
+    objects have been closed (a copier blocked in a Write to a peer that does not read is released
+    only by the local close of that connection; `C14_both_ends_closed` shows the callers do that). -/
 theorem C14_pipe_goroutines_terminate (c : Cfg) (hc : c.ArmsOk) (hcap : 1 ≤ c.cap)
     (dIn uIn : List (List Nat)) (acts : List Act) :
     let s := run c (init dIn uIn) acts
-    quiescent c s = true → s.mainDone = true → liveCopiers s = 0 := by
-  intro s hq hm
+    quiescent c s = true → s.mainDone = true →
+    ((s.dStall = false ∧ s.uStall = false) ∨ (s.dClosed = true ∧ s.uClosed = true)) →
+    liveCopiers s = 0 := by
+  intro s hq hm hst
   have hinv : Inv s := run_inv c hc (init_inv dIn uIn) acts
   rw [quiescent_iff] at hq
   obtain ⟨hD, hU, hsD, hsU, _, _, _⟩ := hq
@@ -39,33 +43,42 @@ theorem C14_pipe_goroutines_terminate (c : Cfg) (hc : c.ArmsOk) (hcap : 1 ≤ c.
     · have : s.chU = 1 := by have := hinv.chU_le; omega
       exact absurd (hinv.chU_done this) hne
   -- a copier that is `sending` can always deposit; one that is `copying` on a closed end can step
-  have cdDone : s.uClosed = true → s.cd = .done → s.dClosed = true ∨ True := fun _ _ => Or.inr trivial
-  have hcd : (s.dClosed = true ∨ s.cd = .done) → s.cd = .done := by
-    intro h
-    rcases h with hcl | hd
-    · cases hcd : s.cd with
-      | done => rfl
-      | copying => simp [step, hcd, hcl] at hD
-      | sending r =>
-        have h0 := chD0 (by simp [hcd])
-        have hlt : s.chD < c.cap := by omega
-        simp [step, hcd, hlt] at hsD
-    · exact hd
-  have hcu : (s.uClosed = true ∨ s.cu = .done) → s.cu = .done := by
-    intro h
-    rcases h with hcl | hd
-    · cases hcu : s.cu with
-      | done => rfl
-      | copying => simp [step, hcu, hcl] at hU
-      | sending r =>
-        have h0 := chU0 (by simp [hcu])
-        have hlt : s.chU < c.cap := by omega
-        simp [step, hcu, hlt] at hsU
-    · exact hd
+  have hcd : s.dClosed = true → s.cd = .done := by
+    intro hcl
+    cases hcd : s.cd with
+    | done => rfl
+    | copying => simp [step, hcd, hcl] at hD
+    | writing ch =>
+      simp only [step, hcd] at hD
+      rcases hst with ⟨_, hus⟩ | ⟨_, huc⟩
+      · by_cases hw : s.uClosed = true ∨ s.uGone = true
+        · simp [hw] at hD
+        · simp [hw, hus] at hD
+      · simp [huc] at hD
+    | sending r =>
+      have h0 := chD0 (by simp [hcd])
+      have hlt : s.chD < c.cap := by omega
+      simp [step, hcd, hlt] at hsD
+  have hcu : s.uClosed = true → s.cu = .done := by
+    intro hcl
+    cases hcu : s.cu with
+    | done => rfl
+    | copying => simp [step, hcu, hcl] at hU
+    | writing ch =>
+      simp only [step, hcu] at hU
+      rcases hst with ⟨hds, _⟩ | ⟨hdc, _⟩
+      · by_cases hw : s.dClosed = true ∨ s.dGone = true
+        · simp [hw] at hU
+        · simp [hw, hds] at hU
+      · simp [hdc] at hU
+    | sending r =>
+      have h0 := chU0 (by simp [hcu])
+      have hlt : s.chU < c.cap := by omega
+      simp [step, hcu, hlt] at hsU
   rcases hinv.main hm with ⟨huc, hd, _⟩ | ⟨hdc, hu, _⟩
-  · have := hcu (Or.inl huc)
+  · have := hcu huc
     simp [liveCopiers, hd, this]
-  · have := hcd (Or.inl hdc)
+  · have := hcd hdc
     simp [liveCopiers, hu, this]
 
 /-- the parameters of the current code meet the conditions of the theorem (this is the obligation
@@ -93,22 +106,32 @@ theorem step_frame (c : Cfg) {s s' : St} (a : Act) (hs : step c s a = some s') :
   cases a <;> simp only [step] at hs
   case finDown => split at hs <;> simp at hs; subst hs; simp
   case finUp => split at hs <;> simp at hs; subst hs; simp
+  case goneDown => split at hs <;> simp at hs; subst hs; simp
+  case goneUp => split at hs <;> simp at hs; subst hs; simp
+  case stallDown => split at hs <;> simp at hs; subst hs; simp
+  case stallUp => split at hs <;> simp at hs; subst hs; simp
   case stepD =>
     split at hs
-    · simp at hs
     · split at hs
       · simp at hs; subst hs; simp
       · split at hs
-        · split at hs <;> (simp at hs; subst hs; simp)
+        · simp at hs; subst hs; simp
         · split at hs <;> simp at hs; subst hs; simp
+    · split at hs
+      · simp at hs; subst hs; simp
+      · split at hs <;> simp at hs; subst hs; simp
+    · simp at hs
   case stepU =>
     split at hs
-    · simp at hs
     · split at hs
       · simp at hs; subst hs; simp
       · split at hs
-        · split at hs <;> (simp at hs; subst hs; simp)
+        · simp at hs; subst hs; simp
         · split at hs <;> simp at hs; subst hs; simp
+    · split at hs
+      · simp at hs; subst hs; simp
+      · split at hs <;> simp at hs; subst hs; simp
+    · simp at hs
   case sendD =>
     split at hs
     · rename_i r _
@@ -203,6 +226,17 @@ theorem C14_both_ends_closed (c : Cfg) (hb : c.CallerClosesBoth) (dIn uIn : List
     | false => simp [step, hm, hcd] at hcc
   exact hc this
 
+/-- **no_leak_when_caller_closes**: with a caller that closes both connection objects, both copier
+    goroutines have exited in every quiescent state after PipeData returned — also when a peer has
+    stopped reading and a copier was blocked in its Write. -/
+theorem C14_no_leak_when_caller_closes (c : Cfg) (hc : c.ArmsOk) (hcap : 1 ≤ c.cap) (hb : c.CallerClosesBoth)
+    (dIn uIn : List (List Nat)) (acts : List Act) :
+    let s := run c (init dIn uIn) acts
+    quiescent c s = true → s.mainDone = true → liveCopiers s = 0 := by
+  intro s hq hm
+  exact C14_pipe_goroutines_terminate c hc hcap dIn uIn acts hq hm
+    (Or.inr (C14_both_ends_closed c hb dIn uIn acts hq hm))
+
 /-- the server path of the current code closes the target connection it opened -/
 theorem C14_server_closes_target : (genCfg .downOnly).CallerClosesBoth := by
   right; exact ⟨rfl, by decide⟩
@@ -248,7 +282,7 @@ theorem C14_witness_spin (fuel : Nat) :
 
 /-! non-vacuity: a full run of the current configuration reaches a quiescent state with PipeData returned -/
 example : let c := genCfg .downOnly
-    let s := run c (init [[1,2,3]] [[4]]) [.stepD, .stepU, .finDown, .stepD, .sendD, .recvD, .stepU, .sendU, .callerClose]
+    let s := run c (init [[1,2,3]] [[4]]) [.stepD, .stepD, .stepU, .stepU, .finDown, .stepD, .sendD, .recvD, .stepU, .sendU, .callerClose]
     quiescent c s = true ∧ s.mainDone = true ∧ liveCopiers s = 0 ∧ s.uOut = [1,2,3] ∧ s.dOut = [4] := by decide
 
 end SA.Pipe
@@ -257,6 +291,7 @@ end SA.Pipe
 #print axioms SA.Pipe.C14_pipe_cfg_ok
 #print axioms SA.Pipe.C14_witness_leak_cap0
 #print axioms SA.Pipe.C14_both_ends_closed
+#print axioms SA.Pipe.C14_no_leak_when_caller_closes
 #print axioms SA.Pipe.C14_server_closes_target
 #print axioms SA.Pipe.C14_witness_target_left_open
 #print axioms SA.Pipe.C14_accept_loop_exits
